@@ -1,5 +1,417 @@
 package main
 
-func runProperty(repo, specs, prop, tier, out string) int {
-	return 2
+// Property driver: ./govc -property Cxx -tier quick|thorough
+// Reads /verif/properties.cfg.json (function cone per property), generates and discharges all obligations of the
+// cone from the current /repo working tree, writes /verif/evidence/<id>.json, prints VIOLATION / KNOWN-FINDING lines.
+
+import (
+	"encoding/json"
+	"fmt"
+	"os"
+	"path/filepath"
+	"regexp"
+	"sort"
+	"strconv"
+	"strings"
+	"time"
+
+	"golang.org/x/tools/go/ssa"
+)
+
+type PropCfg struct {
+	Funcs    []string `json:"funcs"`              // short function names (exact) or prefixes ending with '*'
+	Kinds    []string `json:"kinds,omitempty"`    // obligation kinds to include (empty = all)
+	Exclude  []string `json:"exclude,omitempty"`  // regexps of obligation names excluded (with reason in Note)
+	Note     string   `json:"note,omitempty"`
+	Bounded  []string `json:"bounded,omitempty"`  // descriptions of bounded stand-ins (never counted as proved)
+	Residual []string `json:"residual,omitempty"` // clauses of the statement not covered
 }
+
+type KnownFinding struct {
+	Prop       string
+	Obligation string // exact obligation name
+	Desc       string
+	Fixed      bool
+}
+
+func loadKnownFindings(path string) []KnownFinding {
+	data, err := os.ReadFile(path)
+	if err != nil {
+		return nil
+	}
+	var out []KnownFinding
+	for _, l := range strings.Split(string(data), "\n") {
+		l = strings.TrimSpace(l)
+		if l == "" || strings.HasPrefix(l, "#") {
+			continue
+		}
+		if strings.HasPrefix(l, "fixed:") {
+			out = append(out, KnownFinding{Fixed: true, Desc: l})
+			continue
+		}
+		// finding: property=Cxx obligation=<name> <description>
+		if strings.HasPrefix(l, "finding:") {
+			kf := KnownFinding{}
+			rest := strings.TrimSpace(strings.TrimPrefix(l, "finding:"))
+			f := strings.SplitN(rest, " ", 3)
+			for _, p := range f[:min(2, len(f))] {
+				if strings.HasPrefix(p, "property=") {
+					kf.Prop = strings.TrimPrefix(p, "property=")
+				}
+				if strings.HasPrefix(p, "obligation=") {
+					kf.Obligation = strings.TrimPrefix(p, "obligation=")
+				}
+			}
+			if len(f) == 3 {
+				kf.Desc = f[2]
+			}
+			out = append(out, kf)
+		}
+	}
+	return out
+}
+
+type namedResult struct {
+	Name      string   `json:"name"`
+	Instances int      `json:"instances"`
+	Status    string   `json:"status"`
+	Solver    string   `json:"solver"`
+	Secs      float64  `json:"secs"`
+	Pos       string   `json:"pos,omitempty"`
+	Clause    string   `json:"clause,omitempty"`
+	bad       *Obligation
+	smoke     bool
+}
+
+func verifDir() string {
+	if d := os.Getenv("VERIF_DIR"); d != "" {
+		return d
+	}
+	return "/verif"
+}
+
+func runProperty(repo, specs, prop, tier, out string) int {
+	t0 := time.Now()
+	vd := verifDir()
+	seed := 0
+	if s := os.Getenv("VERIF_SEED"); s != "" {
+		seed, _ = strconv.Atoi(s)
+	}
+	if t := os.Getenv("VERIF_TIER"); t != "" && tier == "" {
+		tier = t
+	}
+	if tier != "thorough" {
+		tier = "quick"
+	}
+	cfgData, err := os.ReadFile(filepath.Join(vd, "properties.cfg.json"))
+	if err != nil {
+		fmt.Fprintln(os.Stderr, "cannot read properties.cfg.json:", err)
+		return 2
+	}
+	var cfgs map[string]PropCfg
+	if err := json.Unmarshal(cfgData, &cfgs); err != nil {
+		fmt.Fprintln(os.Stderr, "bad properties.cfg.json:", err)
+		return 2
+	}
+	cfg, ok := cfgs[prop]
+	if !ok {
+		fmt.Fprintln(os.Stderr, "unknown property", prop)
+		return 2
+	}
+	p, err := LoadProg(repo, []string{specs})
+	replayDir := filepath.Join(vd, "out", "replay")
+	os.MkdirAll(replayDir, 0o755)
+	os.MkdirAll(filepath.Join(vd, "evidence"), 0o755)
+	if err != nil {
+		// the tree does not load (or a contract file does not parse): undecided, reported as a violation of tooling input
+		rf := filepath.Join(replayDir, prop+"-load.json")
+		writeJSON(rf, map[string]any{"obligation": "load", "error": err.Error()})
+		fmt.Printf("VIOLATION property=%s replay=%s obligation=load no-failing-input-found\n", prop, rf)
+		writeEvidence(vd, prop, tier, seed, nil, nil, []string{"load failed: " + err.Error()}, nil, time.Since(t0), 1, cfg, nil, nil)
+		return 1
+	}
+	timeout := 10 * time.Second
+	if tier == "thorough" {
+		timeout = 60 * time.Second
+	}
+	solver := NewSolver(filepath.Join(out, prop), timeout, tier == "thorough")
+	// select functions
+	var fns []*ssa.Function
+	matched := map[string]bool{}
+	for _, fn := range p.Funcs {
+		if fn.Parent() != nil {
+			continue
+		}
+		sn := p.ShortName(fn)
+		for _, pat := range cfg.Funcs {
+			if pat == sn || (strings.HasSuffix(pat, "*") && strings.HasPrefix(sn, strings.TrimSuffix(pat, "*"))) {
+				fns = append(fns, fn)
+				matched[pat] = true
+				break
+			}
+		}
+	}
+	sort.Slice(fns, func(i, j int) bool { return fns[i].String() < fns[j].String() })
+	var results []*namedResult
+	var failures []*namedResult
+	addFailure := func(name, status, clause string) {
+		r := &namedResult{Name: name, Instances: 1, Status: status, Clause: clause}
+		results = append(results, r)
+		failures = append(failures, r)
+	}
+	for _, pat := range cfg.Funcs {
+		if !matched[pat] {
+			addFailure(pat+"#bind[function]", "bind-error", "function named by the property cone no longer exists")
+		}
+	}
+	for _, e := range p.BindErrs {
+		addFailure("contracts#bind["+e+"]", "bind-error", e)
+	}
+	var kindSet map[string]bool
+	if len(cfg.Kinds) > 0 {
+		kindSet = map[string]bool{}
+		for _, k := range cfg.Kinds {
+			kindSet[k] = true
+		}
+	}
+	var excl []*regexp.Regexp
+	for _, e := range cfg.Exclude {
+		excl = append(excl, regexp.MustCompile(e))
+	}
+	usedExterns := map[string]bool{}
+	defaultExterns := map[string]bool{}
+	usedContracts := map[string]bool{}
+	assumptions := map[string]bool{}
+	var funcsUnder []string
+	var allObls []*Obligation
+	type fnRun struct {
+		x *Exec
+	}
+	var runs []fnRun
+	genStart := time.Now()
+	for _, fn := range fns {
+		x := NewExec(p, fn)
+		x.Run()
+		runs = append(runs, fnRun{x})
+		tag := "contract"
+		if x.FC == nil {
+			tag = "safety-only"
+		} else if x.FC.Trusted {
+			tag = "trusted"
+		}
+		funcsUnder = append(funcsUnder, x.short+" ("+tag+")")
+		for _, u := range x.Unsupported {
+			addFailure(x.short+"#unsupported["+u+"]", "unsupported", u)
+		}
+		for k := range x.UsedExterns {
+			usedExterns[k] = true
+		}
+		for k := range x.DefaultExterns {
+			defaultExterns[k] = true
+		}
+		for k := range x.UsedContracts {
+			usedContracts[k] = true
+		}
+		for k := range x.Assumptions {
+			assumptions[k] = true
+		}
+		for _, o := range x.Obls {
+			if kindSet != nil && !o.Smoke {
+				k := o.Kind
+				if strings.HasPrefix(k, "loop") {
+					k = "loop"
+				}
+				if !kindSet[k] {
+					continue
+				}
+			}
+			skip := false
+			for _, re := range excl {
+				if re.MatchString(o.Name) {
+					skip = true
+				}
+			}
+			if skip {
+				continue
+			}
+			allObls = append(allObls, o)
+		}
+	}
+	genSecs := time.Since(genStart).Seconds()
+	solveStart := time.Now()
+	solver.SolveAll(allObls, 16)
+	solveSecs := time.Since(solveStart).Seconds()
+	// aggregate
+	agg := aggregate(allObls)
+	nObl, nDis := 0, 0
+	for _, a := range agg {
+		r := &namedResult{Name: a.name, Instances: a.n, Status: "discharged", Solver: a.solver, Pos: a.pos}
+		if strings.Contains(a.name, "#smoke[") {
+			r.smoke = true
+			if !a.ok {
+				r.Status = "vacuous"
+				r.bad = a.bad
+				failures = append(failures, r)
+			} else {
+				r.Status = "reachable"
+			}
+			results = append(results, r)
+			continue
+		}
+		nObl++
+		if a.ok {
+			nDis++
+		} else {
+			r.Status = strings.TrimPrefix(a.status, "FAIL:")
+			r.bad = a.bad
+			if a.bad != nil {
+				r.Clause = a.bad.Clause
+			}
+			failures = append(failures, r)
+		}
+		results = append(results, r)
+	}
+	if nObl == 0 {
+		addFailure(prop+"#vacuity[no-obligations]", "vacuous", "the property cone generated no obligations")
+	}
+	// known findings
+	kfs := loadKnownFindings(filepath.Join(vd, "KNOWN_FINDINGS.txt"))
+	violations := 0
+	var knownSeen []string
+	for _, f := range failures {
+		known := false
+		for _, kf := range kfs {
+			if !kf.Fixed && kf.Prop == prop && kf.Obligation == f.Name {
+				known = true
+				fmt.Printf("KNOWN-FINDING: property=%s %s: %s\n", prop, f.Name, kf.Desc)
+				knownSeen = append(knownSeen, f.Name)
+			}
+		}
+		if known {
+			continue
+		}
+		violations++
+		rf := filepath.Join(replayDir, prop+"-"+sanitize(f.Name)+".json")
+		rep := map[string]any{"property": prop, "obligation": f.Name, "status": f.Status, "clause": f.Clause, "pos": f.Pos}
+		suffix := " no-failing-input-found"
+		if f.bad != nil {
+			rep["trace"] = f.bad.Trace
+			rep["solver"] = f.bad.Solver
+			rep["solver_output"] = f.bad.Model
+			qf := strings.TrimSuffix(rf, ".json") + ".smt2"
+			os.WriteFile(qf, []byte(f.bad.Query(true)), 0o644)
+			rep["query"] = qf
+			if f.bad.Status == "sat" {
+				// try to obtain a model and replay it on the real code
+				if ok, info := tryReplay(p, f.bad, rf, repo); ok {
+					suffix = ""
+					rep["replay"] = info
+				} else if info != nil {
+					rep["replay"] = info
+				}
+			}
+		}
+		writeJSON(rf, rep)
+		fmt.Printf("VIOLATION property=%s replay=%s obligation=%s status=%s%s\n", prop, rf, f.Name, f.Status, suffix)
+	}
+	// evidence
+	var trusted []string
+	for _, k := range sortedKeys(usedExterns) {
+		trusted = append(trusted, "assumed contract: "+k)
+	}
+	for _, k := range sortedKeys(defaultExterns) {
+		trusted = append(trusted, "default external contract (arbitrary result, no effect, no panic): "+k)
+	}
+	for _, k := range sortedKeys(assumptions) {
+		trusted = append(trusted, "modelling: "+k)
+	}
+	trusted = append(trusted,
+		"modelling: machine integers are mathematical integers (no overflow obligations); x509.KeyUsage is a 32-bit vector",
+		"modelling: string and []byte contents are abstract (length, equality, literals distinct)",
+		"modelling: time.Time is an integer instant; zone and monotonic reading dropped",
+		"modelling: append always reallocates; no interior aliasing between different parameters",
+		"go/ssa (x/tools v0.29.0) lowering and go/types; SMT solvers z3 4.8.12, z3 5.1.0, cvc5 1.0.3; the VC generator itself (guarded by the must-fail corpus)")
+	var usedC []string
+	for _, k := range sortedKeys(usedContracts) {
+		usedC = append(usedC, k)
+	}
+	stats := map[string]any{
+		"gen_secs": genSecs, "solve_wall_secs": solveSecs, "solver_cpu_secs": solver.TotalSecs, "answers": solver.Counts,
+		"path_instances": len(allObls),
+	}
+	writeEvidence(vd, prop, tier, seed, results, funcsUnder, trusted, usedC, time.Since(t0), violations, cfg, stats, knownSeen)
+	fmt.Printf("%s %s: %d named obligations, %d discharged, %d functions, %d violations, %d known findings, %.1fs\n",
+		prop, tier, nObl, nDis, len(fns), violations, len(knownSeen), time.Since(t0).Seconds())
+	if violations > 0 {
+		return 1
+	}
+	return 0
+}
+
+func writeJSON(path string, v any) {
+	b, _ := json.MarshalIndent(v, "", " ")
+	os.WriteFile(path, b, 0o644)
+}
+
+func writeEvidence(vd, prop, tier string, seed int, results []*namedResult, funcs, trusted, usedContracts []string, wall time.Duration, violations int, cfg PropCfg, stats map[string]any, known []string) {
+	nObl, nDis, nSmoke := 0, 0, 0
+	var samples []any
+	var undischarged []any
+	bySolver := map[string]int{}
+	for _, r := range results {
+		if r.smoke {
+			nSmoke++
+			continue
+		}
+		nObl++
+		if r.Status == "discharged" {
+			nDis++
+			bySolver[strings.TrimSuffix(r.Solver, "(cached)")]++
+		} else {
+			undischarged = append(undischarged, map[string]any{"name": r.Name, "status": r.Status, "clause": r.Clause})
+		}
+		if len(samples) < 12 && r.Status == "discharged" && r.Solver != "trivial" {
+			samples = append(samples, map[string]any{"obligation": r.Name, "path_instances": r.Instances, "answer": "unsat", "solver": r.Solver, "pos": r.Pos})
+		}
+	}
+	if len(samples) == 0 {
+		for _, r := range results {
+			if len(samples) < 5 {
+				samples = append(samples, map[string]any{"obligation": r.Name, "status": r.Status})
+			}
+		}
+	}
+	if trusted == nil {
+		trusted = []string{}
+	}
+	cov := map[string]any{
+		"obligations":           nObl,
+		"discharged":            nDis,
+		"checker_cmd":           fmt.Sprintf("cd /verif && ./check %s %s   # govc: weakest-precondition VCs over go/ssa of /repo's working tree, discharged by z3 4.8.12 / z3 5.1.0 / cvc5 1.0.3", prop, tier),
+		"trusted_base":          trusted,
+		"samples":               samples,
+		"functions_under_contract": funcs,
+		"callee_contracts_used": usedContracts,
+		"vacuity_sites_checked": nSmoke,
+		"discharged_by_backend": bySolver,
+		"undischarged":          undischarged,
+		"known_findings_seen":   known,
+		"bounded":               cfg.Bounded,
+		"residual_clauses_not_covered": cfg.Residual,
+		"stats":                 stats,
+		"explanation":           "Each named obligation is pc => goal generated by symbolic execution of the real function's go/ssa (loops cut at checked invariants, callees replaced by their contracts); it counts as discharged only if every path instance is unsat.",
+	}
+	ev := map[string]any{
+		"property_id": prop,
+		"tier":        tier,
+		"seed":        seed,
+		"level":       "proof",
+		"coverage":    cov,
+		"assumptions": trusted,
+		"wall_s":      wall.Seconds(),
+		"violations":  violations,
+	}
+	writeJSON(filepath.Join(vd, "evidence", prop+".json"), ev)
+}
+
+// tryReplay: see replay.go
